@@ -33,7 +33,9 @@ CONSTANTS Lens,      \* bundle lengths a user may queue
           Dev,       \* set of deviation names enabled
           Adv,       \* set of ends played by an adversary instead of the implementation ({} normally)
           AdvMoves,  \* set of message records the adversary may put on its wire
-          MaxAdv     \* number of adversarial messages
+          MaxAdv,    \* number of adversarial messages
+          SegChoice, \* outputs the segment-size controller may produce ({} = adaptation switched off)
+          SegFloor   \* the controller's lower clamp (_send_segment_size_min)
 
 VARIABLES ph,        \* [Ends -> [open, started, inConn, inSess, inTerm, gotTerm]]
           txQ,       \* [Ends -> Seq([id, len])]   _tx_pend_start
@@ -45,6 +47,7 @@ VARIABLES ph,        \* [Ends -> [open, started, inConn, inSess, inTerm, gotTerm
           rxMap,     \* [Ends -> SUBSET Nat]       _rx_map keys
           buf, cbuf, \* [Ends -> Seq(msg)]         message-level / connection-level TX buffers
           segSize,   \* [Ends -> Nat]              _send_segment_size
+          txTimes,   \* [Ends -> SUBSET (Nat \X Nat)] keys of _segment_tx_times (only with adaptation on)
           pq, txp,   \* [Ends -> BOOLEAN]          pending _process_queue / TX pump sources
           cw,        \* [Ends -> BOOLEAN]          close wanted once the socket buffer has drained (intended design)
           nDeliv,    \* [Ends -> Nat] messages of the peer's wire read by e
@@ -52,7 +55,7 @@ VARIABLES ph,        \* [Ends -> [open, started, inConn, inSess, inTerm, gotTerm
           pend,      \* Seq(event): observable sub-events of the callback in progress
           allOk      \* every enforced clause held so far
 
-mvars == <<ph, txQ, txCur, txAck, txMap, nextId, nSent, rxCur, rxMap, buf, cbuf, segSize, pq, txp, cw, nDeliv, nAdv, advAcked, rxStuck, pend, allOk>>
+mvars == <<ph, txQ, txCur, txAck, txMap, nextId, nSent, rxCur, rxMap, buf, cbuf, segSize, txTimes, pq, txp, cw, nDeliv, nAdv, advAcked, rxStuck, pend, allOk>>
 vars == <<ovars, mvars>>
 
 ----------------------------------------------------------------------------
@@ -71,6 +74,15 @@ MTerm(reply, reason) == [Base("TERM", 3) EXCEPT !.flags = (IF reply THEN 1 ELSE 
 MReject(typ, reason) == [Base("REJECT", 3) EXCEPT !.rej = typ, !.reason = reason]
 
 Min(a, b) == IF a <= b THEN a ELSE b
+
+\* Adaptive segment sizing (modulate_target_ack_time): the transmit time of every segment is remembered under a
+\* key and looked up when its ACK arrives; the controller output c is clamped to [SegFloor, peer segment MRU],
+\* the MRU last.  Deviations: the key is the cumulative length alone (it repeats between pipelined transfers: the
+\* later ACK finds nothing and the callback fails), and the floor applied after the MRU.
+Adapting(e) == SegChoice # {} /\ e \notin Adv
+TimeKey(id, len) == IF "ack_timing_keyed_by_length" \in Dev THEN <<0, len>> ELSE <<id, len>>
+Clamp(c, mru) == IF "floor_beats_mru" \in Dev THEN Max(Min(c, mru), SegFloor) ELSE Min(Max(c, SegFloor), mru)
+EvEscape(e) == [a |-> "Escape", e |-> e, n |-> "rx", i |-> [exc |-> "KeyError", user |-> FALSE, kf |-> "escape_rx_KeyError"], t |-> 0]
 NoCur == [id |-> NONE, len |-> 0, sent |-> 0]
 NoRx == [id |-> NONE, got |-> 0]
 SetToSortedSeq(S) == \* ids are small naturals: order them
@@ -100,7 +112,7 @@ EvClosed(e) == [a |-> "Closed", e |-> e, n |-> "", t |-> 0]
 EndState(e) == [open |-> ph[e].open, started |-> ph[e].started, inConn |-> ph[e].inConn, inSess |-> ph[e].inSess,
                 inTerm |-> ph[e].inTerm, gotTerm |-> ph[e].gotTerm, txQ |-> txQ[e], txCur |-> txCur[e], txAck |-> txAck[e], txMap |-> txMap[e],
                 nextId |-> nextId[e], nSent |-> nSent[e], rxCur |-> rxCur[e], rxMap |-> rxMap[e], buf |-> buf[e],
-                cbuf |-> cbuf[e], segSize |-> segSize[e], pq |-> pq[e], txp |-> txp[e], cw |-> cw[e], evs |-> <<>>]
+                cbuf |-> cbuf[e], segSize |-> segSize[e], txTimes |-> txTimes[e], pq |-> pq[e], txp |-> txp[e], cw |-> cw[e], evs |-> <<>>]
 
 \* send_message: encode into the message buffer and make sure the pump runs
 Enc(s, m) == [s EXCEPT !.buf = Append(@, m), !.txp = TRUE]
@@ -143,7 +155,7 @@ Commit(e, s0) ==
   /\ nextId' = [nextId EXCEPT ![e] = s.nextId] /\ nSent' = [nSent EXCEPT ![e] = s.nSent]
   /\ rxCur' = [rxCur EXCEPT ![e] = s.rxCur] /\ rxMap' = [rxMap EXCEPT ![e] = s.rxMap]
   /\ buf' = [buf EXCEPT ![e] = s.buf] /\ cbuf' = [cbuf EXCEPT ![e] = s.cbuf]
-  /\ segSize' = [segSize EXCEPT ![e] = s.segSize]
+  /\ segSize' = [segSize EXCEPT ![e] = s.segSize] /\ txTimes' = [txTimes EXCEPT ![e] = s.txTimes]
   /\ pq' = [pq EXCEPT ![e] = s.pq] /\ txp' = [txp EXCEPT ![e] = s.txp] /\ cw' = [cw EXCEPT ![e] = s.cw]
   /\ pend' = s.evs
   /\ UNCHANGED <<allOk, ovars>>
@@ -219,7 +231,8 @@ ProcessQueue(e) ==
               sent == cur.sent + n
               isEnd == sent = cur.len
               m == MSeg(cur.id, n, cur.sent = 0, isEnd, cur.len)
-              s2 == Enc([s1 EXCEPT !.txCur.sent = sent], m)
+              s2 == Enc([s1 EXCEPT !.txCur.sent = sent,
+                                   !.txTimes = IF Adapting(e) THEN @ \cup {TimeKey(cur.id, sent)} ELSE @], m)
               s3 == IF isEnd THEN [s2 EXCEPT !.txAck = @ \cup {cur.id}, !.txCur = NoCur, !.pq = TRUE] ELSE s2
           IN Commit(e, s3)
   /\ UNCHANGED <<nDeliv, nAdv, advAcked, rxStuck>>
@@ -249,7 +262,7 @@ RECURSIVE FlushQ(_, _)
 FlushQ(x, e) == IF x.txQ = <<>> THEN x
                 ELSE FlushQ(Ev([x EXCEPT !.txQ = Tail(@), !.txMap = @ \ {Head(x.txQ).id}],
                                EvSig(e, "send_bundle_finished", Head(x.txQ).id, Head(x.txQ).len, "session terminating")), e)
-OnMessage(s, e, m) ==
+OnMessage(s, e, m, c) ==
   LET p == Peer(e) IN
   IF ~s.inConn THEN
      \* whatever arrives first is read as the contact header
@@ -281,10 +294,16 @@ OnMessage(s, e, m) ==
                  ELSE [s1 EXCEPT !.rxCur = [id |-> m.id, got |-> got]]
     [] m.t = "ACK" ->
          IF m.id \notin s.txMap THEN Enc(s, MReject(2, 3))
-         ELSE IF HasEnd(m.flags)
-         THEN CheckSessTerm(Ev([s EXCEPT !.txAck = @ \ {m.id}, !.txMap = @ \ {m.id}],
-                               EvSig(e, "send_bundle_finished", m.id, m.len, "success")), e)
-         ELSE s
+         ELSE IF Adapting(e) /\ TimeKey(m.id, m.len) \notin s.txTimes /\ "ack_timing_keyed_by_length" \in Dev
+         THEN Ev(s, EvEscape(e))             \* the table lookup fails, nothing else of the handler runs
+         ELSE
+         LET s0 == IF Adapting(e) /\ TimeKey(m.id, m.len) \in s.txTimes
+                   THEN [s EXCEPT !.txTimes = @ \ {TimeKey(m.id, m.len)}, !.segSize = Clamp(c, SegMru[Peer(e)])]
+                   ELSE s
+         IN IF HasEnd(m.flags)
+            THEN CheckSessTerm(Ev([s0 EXCEPT !.txAck = @ \ {m.id}, !.txMap = @ \ {m.id}],
+                                  EvSig(e, "send_bundle_finished", m.id, m.len, "success")), e)
+            ELSE s0
     [] m.t = "REFUSE" ->
          IF m.id \notin s.txMap THEN Enc(s, MReject(3, 3))
          ELSE LET s1 == Ev([s EXCEPT !.txAck = @ \ {m.id}, !.txMap = @ \ {m.id},
@@ -307,7 +326,8 @@ NetRecv(e) ==
         THEN /\ rxStuck' = [rxStuck EXCEPT ![e] = TRUE]
              /\ IF "unknown_type_wedges" \in Dev THEN Commit(e, s0)
                 ELSE Commit(e, Close(Enc(s0, MReject(m.typ, 1)), e))
-        ELSE /\ Commit(e, OnMessage(Ev(s0, EvHandle(e, m, nDeliv[e] + 1, hCum[e] + m.size)), e, m))
+        ELSE /\ \E c \in (IF Adapting(e) /\ m.t = "ACK" THEN SegChoice ELSE {0}) :
+                  Commit(e, OnMessage(Ev(s0, EvHandle(e, m, nDeliv[e] + 1, hCum[e] + m.size)), e, m, c))
              /\ UNCHANGED rxStuck
   /\ nDeliv' = [nDeliv EXCEPT ![e] = @ + 1]
   /\ UNCHANGED <<nAdv, advAcked>>
@@ -317,7 +337,7 @@ AdvSend(a, m) ==
   /\ Idle /\ a \in Adv /\ nAdv < MaxAdv
   /\ nAdv' = nAdv + 1
   /\ pend' = <<EvWire(a, m)>>
-  /\ UNCHANGED <<ph, txQ, txCur, txAck, txMap, nextId, nSent, rxCur, rxMap, buf, cbuf, segSize, pq, txp, cw,
+  /\ UNCHANGED <<ph, txQ, txCur, txAck, txMap, nextId, nSent, rxCur, rxMap, buf, cbuf, segSize, txTimes, pq, txp, cw,
                  nDeliv, advAcked, rxStuck, allOk, ovars>>
 
 AdvAck(a) ==
@@ -325,7 +345,7 @@ AdvAck(a) ==
   /\ Idle /\ a \in Adv /\ advAcked < Len(segs[v])
   /\ LET sg == segs[v][advAcked + 1] IN pend' = <<EvWire(a, MAck(sg.id, sg.cum, sg.flags))>>
   /\ advAcked' = advAcked + 1
-  /\ UNCHANGED <<ph, txQ, txCur, txAck, txMap, nextId, nSent, rxCur, rxMap, buf, cbuf, segSize, pq, txp, cw,
+  /\ UNCHANGED <<ph, txQ, txCur, txAck, txMap, nextId, nSent, rxCur, rxMap, buf, cbuf, segSize, txTimes, pq, txp, cw,
                  nDeliv, nAdv, rxStuck, allOk, ovars>>
 
 \* the peer closed and everything it sent has been read: recv() returns b''
@@ -343,7 +363,7 @@ Drain ==
        /\ Upd(ev)
        /\ tid' = tid /\ l' = l
   /\ pend' = Tail(pend)
-  /\ UNCHANGED <<ph, txQ, txCur, txAck, txMap, nextId, nSent, rxCur, rxMap, buf, cbuf, segSize, pq, txp, cw, nDeliv, nAdv, advAcked, rxStuck>>
+  /\ UNCHANGED <<ph, txQ, txCur, txAck, txMap, nextId, nSent, rxCur, rxMap, buf, cbuf, segSize, txTimes, pq, txp, cw, nDeliv, nAdv, advAcked, rxStuck>>
 
 Callback ==
   \E e \in Ends :
@@ -364,7 +384,7 @@ Init ==
   /\ nextId = [e \in Ends |-> 1] /\ nSent = [e \in Ends |-> 0]
   /\ rxCur = [e \in Ends |-> NoRx] /\ rxMap = [e \in Ends |-> {}]
   /\ buf = [e \in Ends |-> <<>>] /\ cbuf = [e \in Ends |-> <<>>]
-  /\ segSize = [e \in Ends |-> 0]
+  /\ segSize = [e \in Ends |-> 0] /\ txTimes = [e \in Ends |-> {}]
   /\ pq = [e \in Ends |-> FALSE] /\ txp = [e \in Ends |-> FALSE] /\ cw = [e \in Ends |-> FALSE]
   /\ nDeliv = [e \in Ends |-> 0] /\ nAdv = 0 /\ advAcked = 0 /\ rxStuck = [e \in Ends |-> FALSE]
   /\ pend = <<>> /\ allOk = TRUE
